@@ -18,7 +18,7 @@ for ns in (0, 1, 2, 3):
     for e, sh in (('h_set', 'Set(key,value) with 1-byte key/value over an 8-letter alphabet (valid, invalid, separators; present and absent keys)'), ('h_delete', 'Delete(key) with a 1-byte key over the alphabet'),
                   ('h_header_roundtrip', 'ToHeader -> FromHeader')):
         if e == 'h_header_roundtrip': tier = 'thorough'
-        QUERIES.append(dict(name='%s_n%d' % (e[2:], ns), harness=tag, entry=e, unwind=U, unwindset=US, rec_unwind=3, tier=tier, timeout=1200, mem_gb=24,
+        QUERIES.append(dict(name='%s_n%d' % (e[2:], ns), harness=tag, entry=e, unwind=U, unwindset=dict(US, verif_mem=60), rec_unwind=3, tier=tier, timeout=1200, mem_gb=28,
                             optional_reach=['Set of a new key on a full list returns an unchanged copy'],
                             shape='%d distinct valid 1-byte members; %s' % (ns, sh)))
 HARNESSES['c14_lim3'] = h(3, limit=3)
